@@ -172,14 +172,14 @@ def validate(traces, prop):
         return [f.result() for f in futs]
 
 
-def tlc_model(module, cfg=None, workers=NPROC, timeout=3600, xmx='12g', extra=None, env=None):
+def tlc_model(module, cfg=None, workers=NPROC, timeout=3600, xmx='12g', extra=None, env=None, coverage=False):
     """run a bounded model (MC_*.tla); returns dict with states, transitions, coverage, output"""
     wd = workdir()
-    md = os.path.join(wd, 'mc-' + module)
+    md = os.path.join(wd, 'mc-%s-%s' % (module, (cfg or 'x').replace('.', '_')))
     e = dict(os.environ, TLC_XMX=xmx)
     if env:
         e.update(env)
-    cmd = [TLC, '-workers', str(workers), '-metadir', md, '-cleanup', '-noGenerateSpecTE', '-coverage', '1',
+    cmd = [TLC, '-workers', str(workers), '-metadir', md, '-cleanup', '-noGenerateSpecTE'] + (['-coverage', '1'] if coverage else []) + [
            '-config', os.path.join(SPEC, cfg or (module + '.cfg')), os.path.join(SPEC, module + '.tla')] + (extra or [])
     t0 = time.time()
     try:
